@@ -42,8 +42,8 @@ KEYS = ["a", "b", "x y", "k.1", "0", "", "a->b", " pad ", "ü", "key-with-dash",
 def cases(tier, rng):
     q = tier == "quick"
     out = []
-    for i in range(8 if q else 60):
-        out.append({"kind": "synthetic", "roots": 25 if q else 80, "updates": 12})
+    for i in range(6 if q else 60):
+        out.append({"kind": "synthetic", "roots": 15 if q else 80, "updates": 12})
     for i in range(3 if q else 20):
         out.append({"kind": "real_objects", "updates": 120 if q else 400})
     for i in range(3 if q else 12):
